@@ -30,6 +30,7 @@
 #include <value.h>
 #include <script/script_error.h>
 #include <util/strencodings.h>
+#include <streams.h>
 
 // Events go to a private descriptor: the code under test prints to stdout itself (e.g. "no stack history").
 static FILE* g_ev = nullptr;
@@ -321,6 +322,71 @@ static void on_crash(int sig) {
     _exit(99);
 }
 
+// ------------------------------------------------------------------ transactions (C13)
+CTransactionRef parse_tx(const char* p);   // instance.cpp
+static std::string le_hex(uint64_t v, int n) { std::vector<unsigned char> b; for (int i = 0; i < n; i++) { b.push_back(v & 0xff); v >>= 8; } return hx(b); }
+static void txcmd(std::istringstream& is) {
+    std::string h; is >> h;
+    for (auto& c : h) if (c == '_') c = ' ';
+    if (h == "-") h = "";
+    printf("{\"e\":\"Tx\",\"hex\":%s", jstr(h).c_str());
+    try {
+        int saved = dup(2); FILE* nul = fopen("/dev/null", "w"); if (nul) { fflush(stderr); dup2(fileno(nul), 2); }
+        CTransactionRef tx;
+        std::string exc;
+        try { tx = parse_tx(h.c_str()); } catch (const std::exception& ex) { exc = ex.what(); }
+        if (nul) { fflush(stderr); dup2(saved, 2); fclose(nul); } close(saved);
+        if (!tx) { printf(",\"ok\":false,\"why\":%s}\n", jstr(exc).c_str()); return; }
+        CDataStream ss(SER_DISK, PROTOCOL_VERSION);
+        ss << *tx;
+        std::vector<unsigned char> re((unsigned char*)ss.data(), (unsigned char*)ss.data() + ss.size());
+        uint256 id = tx->GetHash();
+        uint256 wid = tx->GetWitnessHash();
+        printf(",\"ok\":true,\"reser\":\"%s\",\"txid\":\"%s\",\"wtxid\":\"%s\",\"shown\":\"%s\"", hx(re).c_str(),
+               hx(std::vector<unsigned char>(id.begin(), id.end())).c_str(), hx(std::vector<unsigned char>(wid.begin(), wid.end())).c_str(), id.ToString().c_str());
+        printf(",\"version\":\"%s\",\"locktime\":\"%s\",\"haswit\":%s,\"vin\":[", le_hex((uint32_t)tx->nVersion, 4).c_str(), le_hex(tx->nLockTime, 4).c_str(),
+               tx->HasWitness() ? "true" : "false");
+        for (size_t i = 0; i < tx->vin.size(); i++) {
+            auto& in = tx->vin[i];
+            printf("%s{\"txid\":\"%s\",\"n\":\"%s\",\"script\":\"%s\",\"sequence\":\"%s\",\"wit\":[", i ? "," : "",
+                   hx(std::vector<unsigned char>(in.prevout.hash.begin(), in.prevout.hash.end())).c_str(), le_hex(in.prevout.n, 4).c_str(),
+                   hx(std::vector<unsigned char>(in.scriptSig.begin(), in.scriptSig.end())).c_str(), le_hex(in.nSequence, 4).c_str());
+            for (size_t k = 0; k < in.scriptWitness.stack.size(); k++) printf("%s\"%s\"", k ? "," : "", hx(in.scriptWitness.stack[k]).c_str());
+            printf("]}");
+        }
+        printf("],\"vout\":[");
+        for (size_t i = 0; i < tx->vout.size(); i++) {
+            auto& o = tx->vout[i];
+            printf("%s{\"amount\":\"%s\",\"script\":\"%s\"}", i ? "," : "", le_hex((uint64_t)o.nValue, 8).c_str(),
+                   hx(std::vector<unsigned char>(o.scriptPubKey.begin(), o.scriptPubKey.end())).c_str());
+        }
+        printf("]}\n");
+    } catch (const std::exception& ex) {
+        printf(",\"ok\":false,\"why\":%s}\n", jstr(ex.what()).c_str());
+    }
+}
+// AMT <amount-list>: what --tx=<amount-list>:<hex> makes of the amounts (one-input dummy transaction appended)
+static void amtcmd(std::istringstream& is) {
+    std::string t; is >> t;
+    if (t == "-") t = "";
+    static const char* dummy = "0100000003" "1111111111111111111111111111111111111111111111111111111111111111" "00000000" "00" "ffffffff"
+                               "2222222222222222222222222222222222222222222222222222222222222222" "00000000" "00" "ffffffff"
+                               "3333333333333333333333333333333333333333333333333333333333333333" "00000000" "00" "ffffffff" "00" "00000000";
+    Instance I;
+    int saved = dup(2); FILE* nul = fopen("/dev/null", "w"); if (nul) { fflush(stderr); dup2(fileno(nul), 2); }
+    bool ok = false; std::string exc;
+    try { ok = I.parse_transaction((t + ":" + dummy).c_str(), true); } catch (const std::exception& ex) { exc = ex.what(); }
+    if (nul) { fflush(stderr); dup2(saved, 2); fclose(nul); } close(saved);
+    printf("{\"e\":\"Amt\",\"text\":%s,\"ok\":%s,\"amounts\":[", jstr(t).c_str(), ok ? "true" : "false");
+    if (ok) for (size_t i = 0; i < I.amounts.size(); i++) {
+        int64_t x = I.amounts[i];
+        uint64_t mag = x < 0 ? (uint64_t)(-(x + 1)) + 1 : (uint64_t)x;
+        std::vector<unsigned char> mg; while (mag) { mg.push_back(mag & 0xff); mag >>= 8; }
+        printf("%s[%s,\"%s\"]", i ? "," : "", x < 0 ? "true" : "false", hx(mg).c_str());
+    }
+    printf("]}\n");
+}
+
 int main(int argc, char** argv) {
     std::string line;
     g_ev = fdopen(dup(1), "w");
@@ -339,6 +405,8 @@ int main(int argc, char** argv) {
             else if (w == "CLOSE") close_session();
             else if (w == "NUM") num(is);
             else if (w == "ENC") enc(is);
+            else if (w == "TX") txcmd(is);
+            else if (w == "AMT") amtcmd(is);
             else printf("{\"e\":\"BadLine\"}\n");
         } catch (const std::exception& ex) {
             printf("{\"e\":\"HarnessException\",\"msg\":%s}\n", jstr(ex.what()).c_str());
